@@ -494,8 +494,11 @@ impl Source {
     /// Return the Vcs used by the package
     pub fn vcs(&self) -> Option<crate::vcs::Vcs> {
         for (name, value) in self.0.items() {
-            if name.starts_with("Vcs-") && name != "Vcs-Browser" {
-                return crate::vcs::Vcs::from_field(&name, &value).ok();
+            if name != "Vcs-Browser" {
+                // Vcs::from_field takes the name of the system, without the "Vcs-" prefix
+                if let Some(system) = name.strip_prefix("Vcs-") {
+                    return crate::vcs::Vcs::from_field(system, &value).ok();
+                }
             }
         }
         None
